@@ -370,10 +370,11 @@ def plan(tier, seed):
     quick = tier == 'quick'
     slices = []
     for cfg in ('lalr-ctx-callbacks', 'lalr-basic', 'earley-dynamic', 'earley-basic', 'indent-ctx', 'indent-basic', 'lalr-multistart'):
+        deep = not quick and cfg in ('lalr-basic', 'earley-dynamic', 'indent-ctx')       # thorough: four operations for three configurations
         for pin in range(10 if cfg == 'lalr-multistart' else 9):
-            slices.append({'id': 'hist:%s:ops<=%d:first%d' % (cfg, 3 if quick else 4, pin), 'func': 'hist',
-                           'params': {'kind': 'hist', 'cfg': cfg, 'pin': pin, 'maxops': 3 if quick else 4, 'nprobes': 6 if quick else 11}, 'mode': 'realised', 'timeout': 400 if quick else 3000,
-                           'twin': pin == 8 and cfg == 'lalr-basic', 'bound': {'ops': 3 if quick else 4, 'op_kinds': 9, 'probes': 6 if quick else 11}})
+            slices.append({'id': 'hist:%s:ops<=%d:first%d' % (cfg, 4 if deep else 3, pin), 'func': 'hist',
+                           'params': {'kind': 'hist', 'cfg': cfg, 'pin': pin, 'maxops': 4 if deep else 3, 'nprobes': 6 if (quick or deep) else 11}, 'mode': 'realised', 'timeout': 400 if not deep else 3000,
+                           'twin': pin == 8 and cfg == 'lalr-basic', 'bound': {'ops': 4 if deep else 3, 'op_kinds': 9, 'probes': 6 if (quick or deep) else 11}})
     # schedules: (configuration, pair of first calls, gap windows between consecutive context switches, in line steps)
     plans = [('earley-dynamic', [0, 1], [60], 'forest'), ('earley-callbacks', [1, 0], [60, 20], 'forest'), ('earley-explicit', [0, 1], [60], 'forest'),
              ('basic-callbacks', [0, 1], [8, 40, 3]), ('basic-callbacks', [0, 2], [8, 40, 3]), ('basic-callbacks', [0, 1], [24, 24]),
